@@ -20,8 +20,10 @@ def run(ctx):
         "a garbage hash is realised as another well-formed hash, an empty string, a non-base64 string or a `hashes` "
         "object without sha256 (all well-typed JSON: malformed `hashes` values that make the parser fail are not generated)",
         "no top-level key differing from a protected key only in case (open C05 finding); no keys starting with `_`",
-        "VerifyEventSignatures is compared only where the untampered event verifies (pseudo-ID member events lack an "
-        "mxid_mapping here)",
+        "VerifyEventSignatures of the parsed event is compared with the untampered event's verdict also where that one "
+        "does not verify (invite / restricted join signed by the sender's server only; pseudo-ID member events without "
+        "mxid_mapping); exception: room version 8, whose redaction drops join_authorised_via_users_server (repaired by "
+        "room version 9) - the redacted form of a restricted join there cannot demand the authorising server's signature",
     ]
     ctx.exhaustive = True
     ctx.notes["rule"] = (
